@@ -10,6 +10,7 @@ pub uninterp spec fn node_children(n: &Node) -> Seq<Node>;      // the children 
 pub uninterp spec fn node_text(n: &Node) -> Seq<char>;          // Node::as_str
 pub struct Children { pub items: Vec<Node> }
 #[verifier::external_body] pub fn children(n: &Node) -> (r: Children) ensures r.items@ == node_children(n) { unimplemented!() }
+pub fn node_kids(n: &Node) -> (r: Children) ensures r.items@ == node_children(n) { children(n) }     // same, under a name a local `children` does not shadow
 impl Children {
     #[verifier::external_body]
     pub fn next(&mut self) -> (r: Option<Node>)
@@ -19,12 +20,17 @@ impl Children {
 }
 // Option::unwrap / expect on a child: a panic precondition (R8) discharged from the grammar's child counts
 #[verifier::external_body] pub fn unwrap_node(o: Option<Node>) -> (r: Node) requires o is Some ensures Some(r) == o { o.unwrap() }
+// tests a change may add on the kind of a node / of a parsed value: uninterpreted
+pub uninterp spec fn has_rule(n: &Node, r: &str) -> bool;
+#[verifier::external_body] pub fn node_has_rule(n: &Node, r: &str) -> (b: bool) ensures b == has_rule(n, r) { unimplemented!() }
 #[verifier::external_body] pub fn as_span(n: &Node) -> (r: Span) { unimplemented!() }
 #[verifier::external_body] pub fn new_err(s: Span, n: &Node) -> (r: VErr) { unimplemented!() }
 
 // ---- types and values
 #[verifier::external_body] pub struct TypeLayout { x: usize }
 #[verifier::external_body] pub struct Value { x: usize }
+pub uninterp spec fn has_kind(v: &Value, k: &str) -> bool;
+#[verifier::external_body] pub fn value_has_kind(v: &Value, k: &str) -> (b: bool) ensures b == has_kind(v, k) { unimplemented!() }
 #[verifier::external_body] pub struct ClassType { x: usize }
 pub uninterp spec fn type_of(v: &Value, cls: Option<&ClassType>) -> Option<TypeLayout>;      // Value::for_type
 #[verifier::external_body] pub fn value_for_type(v: &Value, cls: Option<&ClassType>) -> (r: Result<TypeLayout, VErr>)
